@@ -15,6 +15,7 @@ import os
 
 from harness import core
 from harness.props import _sched_common as SC
+from harness.props import _sched_hardening as H
 
 MANIFEST_ENTRY = {
     "text": "Lean theorems (Props/C07.lean) prove for the schedule model, for every number of sites and crews, capacity, day count and per-request crew outcome: C07_conservation (the requests taken on a day are, as a permutation, the completed ones plus the ones put back exactly once; every planned request carries a report; the completion counter of the day's year rises by exactly one per completed request), C07_no_duplicates (a site never has two outstanding requests: invariant queued <-> in the queue, queue sites Nodup, proved by induction over arbitrary histories of days, first flags and re-detections), C07_priority (pop order is ascending in (class, rate, counter); class 1 <-> survey in progress, class 3 <-> never planned for routine schedules, so interrupted surveys come before unattended before new requests), C07_fifo (requests put back on one day into the same class keep the plan order and stay behind older entries of that class), C07_minutes / minutes_add_up (running sum of the daily minutes = report minutes, = survey time at completion), applyOutcome_refines_step + minutes_add_up_crew (the outcomes are a refinement of the crew model's surveyStep; with the crew arithmetic 0 < P < S while in progress), C07_routine_waiting_is_new (in routine schedules only new requests ever wait, so the order of waiting requests is stable across days), C07_followup_duplicate_counterexample (without the callers' guarantee in RunOK the follow-up queue does hold duplicates: F13). The model is tied to the real GenericSchedule/StationarySchedule/FollowUpMobileSchedule/Workplan/PriorityQueueWithFIFO/planner classes and Method/ComponentLevelMethod.deploy_crews by day-by-day differential correspondence (exhaustive small histories + random larger runs) on every run; the property's clauses are evaluated directly on the implementation traces and on whole-simulation traces.",
@@ -56,6 +57,12 @@ def oracle_trace(ctx, case, trace, followup=False, static=None):
                             {"case": strip(case), "day": k})
             break
         inp = {"case": strip(case), "day": k}
+        seen = set(rec["plan"]) | {e[2] for e in rec["queue"]} | {e[2] for e in rec["queue_after_take"]}
+        if not seen <= set(S):
+            ctx.violate("C07:history:request-of-a-site-that-is-not-in-this-schedule",
+                        f"sites {sorted(seen - set(S))} are planned / queued but the method was built for {sorted(S)} "
+                        f"(a request that belongs to another schedule or an earlier case)", inp)
+            break
         if followup and case.get("_double_add"):
             qb = sid(rec["queue_before"])
             if len(set(qb)) != len(qb):
@@ -213,13 +220,14 @@ def random_routine(rng, big=False):
     nd = rng.randint(8, 40) if big else rng.randint(2, 7)
     hours = rng.choice([1, 2, 4, 8])
     T = rng.choice([0, 15, 30, 45])
-    start = rng.choice([[2024, 1, 29], [2023, 12, 28], [2024, 2, 27], [2025, 6, 15]])
+    start = rng.choice([[2024, 1, 29], [2023, 12, 28], [2024, 2, 27], [2025, 6, 15], [2024, 12, 30], [2023, 2, 27],
+                        [2024, 1, 1], [2024, 12, 31]])
     sites = []
     for i in range(ns):
         months = sorted(rng.sample(range(1, 13), rng.randint(1, 12))) if rng.random() < 0.5 else list(range(1, 13))
         if start[1] not in months and rng.random() < 0.8:
             months = sorted(set(months + [start[1]]))
-        sites.append({"id": i + 1, "freq": rng.choice([None, 1, 2, 4, 12, 24, 52]),
+        sites.append({"id": i + 1, "freq": rng.choice([None, 0, 1, 2, 4, 12, 24, 52, 365]),
                       "deploy": rng.random() < 0.9, "months": months,
                       "years": rng.choice([[], [], [start[0]], [start[0], start[0] + 1]]),
                       "S": rng.choice([10, 30, 45, 60, 90, 120, 200, 300, 480, 600])})
@@ -227,9 +235,32 @@ def random_routine(rng, big=False):
     for _ in range(nd):
         r = rng.random()
         weather.append(1 if r < 0.6 else (0 if r < 0.8 else [rng.choice([0, 1]) for _ in range(ns)]))
-    return {"kind": "routine", "method_class": rng.choice(["site", "component"]), "start": start,
-            "end": [start[0] + 1, 12, 31], "ndays": nd, "crews": rng.randint(1, 3),
-            "cap": rng.choice([None, 1, 2, 3]), "T": T, "hours": hours, "sites": sites, "weather": weather}
+    if rng.random() < 0.15:
+        T = rng.choice([[15, 45], [0, 30, 60], [10.4, 20.6]])  # several travel times (sampled per visit)
+    return H.decorate(rng, {"kind": "routine", "method_class": rng.choice(["site", "component"]), "start": start,
+                            "end": [start[0] + 1, 12, 31], "ndays": nd, "crews": rng.randint(1, 3),
+                            "cap": rng.choice([None, 1, 2, 3]), "T": T, "hours": hours, "sites": sites,
+                            "weather": weather})
+
+
+def boundary_histories():
+    """periods of 1 and 2 days, Dec 31 / Jan 1, Feb 28 / 29 / Mar 1, a period and the same period one year later,
+    simulation end = last stepped day"""
+    out = []
+    for (start, end, nd) in [([2024, 12, 31], [2024, 12, 31], 1), ([2024, 1, 1], [2024, 1, 1], 1),
+                             ([2024, 2, 29], [2024, 2, 29], 1), ([2024, 2, 28], [2024, 2, 29], 2),
+                             ([2023, 2, 28], [2023, 3, 1], 2), ([2024, 12, 30], [2024, 12, 31], 2),
+                             ([2023, 12, 31], [2024, 12, 31], 3), ([2024, 12, 31], [2025, 12, 31], 3),
+                             ([2024, 2, 27], [2024, 12, 31], 5), ([2023, 2, 27], [2023, 12, 31], 5),
+                             ([2024, 12, 29], [2025, 12, 31], 5), ([2023, 12, 29], [2024, 12, 31], 5)]:
+        for kind in ("routine", "stationary"):
+            for ns, crews, cap, hours, T, S in ((1, 1, 1, 1, 0, 90), (3, 1, 2, 2, 15, 60), (4, 2, 1, 1, 30, 30)):
+                for mask in ([1] * nd, [0] + [1] * (nd - 1), [1] * (nd - 1) + [0]):
+                    out.append({"kind": kind, "method_class": "site", "start": start, "end": end, "ndays": nd,
+                                "crews": crews, "cap": cap if kind == "routine" else None, "T": T, "hours": hours,
+                                "sites": [{"id": i + 1, "freq": 12, "deploy": True, "months": list(range(1, 13)),
+                                           "years": [], "S": S} for i in range(ns)], "weather": mask})
+    return out
 
 
 def random_stationary(rng):
@@ -252,6 +283,8 @@ def random_followup(rng, big=False):
             "weather": [1 if rng.random() < 0.7 else 0 for _ in range(nd)], "ops": []}
 
     double = rng.random() < 0.04  # a history outside RunOK: one site is flagged twice (two screening methods)
+
+    H.decorate(rng, case)
 
     def ops_fn(k, flagged):
         ops = []
@@ -276,6 +309,19 @@ def random_followup(rng, big=False):
     return case, ops_fn
 
 
+def _closed_followup(rng):
+    """a follow-up history with its operations fixed (realised once), so that it can be re-run verbatim"""
+    from harness.adapters import sched as A
+
+    case, fn = random_followup(rng)
+    try:
+        A.run_followup(case, fn)      # fills case["ops"] with the realised operations
+    except BaseException as e:  # noqa: BLE001 - reported by the stage that re-runs the case
+        if isinstance(e, KeyboardInterrupt):
+            raise
+    return case
+
+
 # ------------------------------------------------------------------------------------------------
 # run
 # ------------------------------------------------------------------------------------------------
@@ -296,7 +342,7 @@ def nontrivial_key(case, trace):
     if not requeue:
         return None
     return (case["kind"], case.get("method_class"), min(len(case["sites"]), 5), case["crews"],
-            case.get("_cap_used"), case["T"], case["hours"], tuple(sorted(pats, key=str))[:6])
+            case.get("_cap_used"), str(case["T"]), case["hours"], tuple(sorted(pats, key=str))[:6])
 
 
 def run_cases(ctx, cases, followup_fns=None):
@@ -306,7 +352,9 @@ def run_cases(ctx, cases, followup_fns=None):
     for idx, case in enumerate(cases):
         if case["kind"] == "followup":
             fn = followup_fns.get(id(case)) if followup_fns else None
-            trace = A.run_followup(case, fn)
+            trace = H.drive(ctx, "C07", A.run_followup, case, fn)
+            if trace is None:
+                continue
             ctx.count("followup_histories")
             if case.get("_double_add"):
                 req, exp = [], []  # outside the model's hypothesis RunOK: oracle only
@@ -315,7 +363,10 @@ def run_cases(ctx, cases, followup_fns=None):
                 req, exp = SC.lines_followup(case, trace)
             static = None
         else:
-            static, trace = A.run_routine(case)
+            r = H.drive(ctx, "C07", A.run_routine, case)
+            if r is None:
+                continue
+            static, trace = r
             req, exp = SC.lines_routine(case, static, trace)
         batches.append(req)
         metas.append((case, static, trace, req, exp))
@@ -326,7 +377,13 @@ def run_cases(ctx, cases, followup_fns=None):
         ctx.count("corr:" + case["kind"] + (":outside-RunOK" if not req else (":ok" if ok else ":DIFF")))
         ctx.traces += 1
         ctx.count("days", len(trace))
-        oracle_trace(ctx, case, trace, followup=case["kind"] == "followup", static=static)
+        try:
+            oracle_trace(ctx, case, trace, followup=case["kind"] == "followup", static=static)
+        except Exception as e:  # an implementation trace of a shape the oracle cannot read
+            import traceback
+            ctx.broke(f"C07: oracle could not evaluate an implementation trace ({type(e).__name__})",
+                      str({k_: v for k_, v in case.items() if k_ != "weather"})[:1200] + "\n" + traceback.format_exc()[-1200:])
+            continue
         k = nontrivial_key(case, trace)
         if k is not None:
             ctx.nontrivial.add(k)
@@ -351,7 +408,7 @@ def run(ctx):
     ctx.extra["exhaustive_core_size"] = len(cases)
     if ctx.quick:
         rng.shuffle(cases)
-        cases = cases[:ctx.pick(7000, None)]
+        cases = cases[:ctx.pick(6000, None)]
     else:
         ctx.exhaustive = True
     fns = {}
@@ -361,10 +418,11 @@ def run(ctx):
         cases.append(random_routine(rng, big=True))
     for _ in range(ctx.pick(400, 3000)):
         cases.append(random_stationary(rng))
-    for k in range(ctx.pick(2500, 14000)):
+    for k in range(ctx.pick(2000, 14000)):
         c, fn = random_followup(rng, big=(k % 10 == 0))
         fns[id(c)] = fn
         cases.append(c)
+    cases += boundary_histories()
     # the stored witness of F13 (a site flagged twice by its callers), always replayed
     cases.append({"kind": "followup", "method_class": "component", "start": [2024, 3, 1], "end": [2024, 12, 31],
                   "ndays": 2, "crews": 1, "cap": 2, "T": 0, "hours": 8, "sites": [{"id": 1, "S": 60}, {"id": 2, "S": 60}],
@@ -378,6 +436,14 @@ def run(ctx):
         del m
     for (case, static, trace, req, exp) in metas:
         ctx.sample({"case": strip(case), "first_day_reply": exp[1] if len(exp) > 1 else None})
+    # ---- hardening stages (audit/LESSONS.md 1, 3): shared state table, history, shared input
+    table_ok = H.shared_state_table(ctx, "C07")
+    npairs = ctx.pick(18, 300) * (1 if table_ok else 6)
+    H.history_stage(ctx, "C07", H.colliding_pairs(rng, random_routine, npairs)
+                    + H.colliding_pairs(rng, random_stationary, npairs // 3)
+                    + H.colliding_pairs(rng, lambda r: _closed_followup(r), npairs // 2))
+    H.shared_input_stage(ctx, "C07", [random_routine(rng) for _ in range(ctx.pick(30, 300))]
+                         + [random_stationary(rng) for _ in range(ctx.pick(10, 100))])
     wholerun_oracle(ctx)
     ctx.extra["hypothesis_hit_rate"] = {
         "RunOK (follow-up histories whose callers flag a site only while it has no outstanding follow-up)":
@@ -412,6 +478,11 @@ def replay(ctx, data):
         print("replay: broken obligation / correspondence:", data.get("broken_obligations"),
               data.get("correspondence_disagreements"))
         return 1
+    if inp.get("history"):
+        H.history_stage(ctx, "C07", [(inp["case"], inp["earlier_case"])])
+        for v in ctx.violations:
+            print("oracle:", v["signature"], "-", v["what"])
+        return 1 if ctx.violations else 0
     if inp.get("wholerun") or (inp.get("case") or {}).get("wholerun"):
         from harness.props import _sched_wholerun as W
 
